@@ -46,16 +46,20 @@ theorem growAmortized_some {env : Env} {v v' : Vec} {xs : List Id} {n : Nat}
   cases hk : env.kind <;> simp only [hk] at h
   · cases h
   · cases h
-  · cases h
-    have ⟨g, c⟩ := growTo_grows hs hl (max (max (v.cap * 2) (v.len + n)) env.minCap)
-    exact ⟨g, by omega⟩
   · split at h
     · cases h
+      have ⟨g, c⟩ := growTo_grows hs hl (max (max (v.cap * 2) (v.len + n)) env.minCap)
+      exact ⟨g, by omega⟩
+    · cases h
+  · split at h
+    · rename_i hc
+      cases h
       have ⟨g, c⟩ := growTo_grows hs hl env.capIn
       exact ⟨g, by omega⟩
     · cases h
   · split at h
-    · cases h
+    · rename_i hc
+      cases h
       have ⟨g, c⟩ := growTo_grows hs hl env.capIn
       exact ⟨g, by omega⟩
     · cases h
